@@ -80,7 +80,7 @@ type Case struct {
 	Ops        []Op `json:"ops"`
 }
 
-var opKinds = []string{"update", "update", "update", "update", "delete", "delete", "hash", "commit", "reopen",
+var opKinds = []string{"update", "update", "update", "update", "delete", "delete", "delete", "get", "get", "getall", "hash", "commit", "commit", "reopen",
 	"renew", "other", "deref", "deref", "cap", "iterate", "seek", "prove", "prove_absent"}
 
 func genCase(t *rapid.T) Case {
@@ -92,9 +92,12 @@ func genCase(t *rapid.T) Case {
 		switch op.Kind {
 		case "update":
 			op.Key, op.Val = genKey(t, c.Secure), genVal(t)
-		case "delete", "seek", "prove_absent":
+		case "delete":
 			op.Key = genKey(t, c.Secure)
-		case "other", "deref", "cap", "prove":
+			op.N = rapid.IntRange(0, 1<<16).Draw(t, "n") // N%3 != 0: delete a key touched before instead
+		case "seek", "prove_absent":
+			op.Key = genKey(t, c.Secure)
+		case "other", "deref", "cap", "prove", "commit", "get":
 			op.N = rapid.IntRange(0, 1<<16).Draw(t, "n")
 			if op.Kind == "other" {
 				op.Key, op.Val = genKey(t, c.Secure), genVal(t)
@@ -221,15 +224,18 @@ func runCase(c Case) kit.Result {
 	var (
 		curRoot      common.Hash // last committed root of the main trie
 		haveRoot     bool
-		refd         = map[common.Hash]bool{} // roots referenced (once each) in the node cache
+		refd         = map[common.Hash]int{} // reference count the harness holds per root in the node cache
 		collapse     bool
 		reopened     bool
 		absentProof  bool
 		gcAfterShare bool
 		labels       = map[string]bool{}
 	)
-	checkAll := func(when string) *kit.Result {
-		for uk := range touched {
+	// Reads go through the subject and load the nodes they resolve into the live trie, so they
+	// are generated events (ops "get"/"getall") and a final sweep, never an after-every-step probe:
+	// a history can therefore delete or update next to nodes that are only referenced by hash.
+	checkKeys := func(when string, keys []string) *kit.Result {
+		for _, uk := range keys {
 			k := []byte(uk)
 			got, err := s.get(k)
 			if err != nil {
@@ -315,6 +321,7 @@ func runCase(c Case) kit.Result {
 		}
 		return nil
 	}
+	refAgain := false
 	doCommit := func() *kit.Result {
 		root, err := s.commit()
 		if err != nil {
@@ -325,9 +332,14 @@ func runCase(c Case) kit.Result {
 			r := kit.Fail("root-mismatch", "Commit() root = %x, independent MPT root = %x", root, want)
 			return &r
 		}
-		if len(model) > 0 && !refd[root] {
+		if len(model) > 0 && (refd[root] == 0 || refAgain) {
+			// core/blockchain.go references the state root of every block, also when
+			// consecutive blocks share it
 			s.tdb.Reference(root, common.Hash{})
-			refd[root] = true
+			refd[root]++
+			if refd[root] > 1 {
+				labels["root-referenced-twice"] = true
+			}
 		}
 		curRoot, haveRoot = root, len(model) > 0
 		return nil
@@ -351,6 +363,14 @@ func runCase(c Case) kit.Result {
 				model[tk] = op.Val
 			}
 		case "delete":
+			if op.N%3 != 0 && len(touched) > 0 {
+				var tl []string
+				for k := range touched {
+					tl = append(tl, k)
+				}
+				sort.Strings(tl)
+				op.Key = []byte(tl[(op.N/3)%len(tl)])
+			}
 			tk := string(s.trieKey(op.Key))
 			if err := s.del(op.Key); err != nil {
 				return kit.Fail("delete-error", "%s: %v", when, err)
@@ -365,7 +385,31 @@ func runCase(c Case) kit.Result {
 				return *r
 			}
 		case "commit":
-			if r := doCommit(); r != nil {
+			refAgain = op.N%2 == 1
+			r := doCommit()
+			refAgain = false
+			if r != nil {
+				return *r
+			}
+		case "get":
+			var tl []string
+			for k := range touched {
+				tl = append(tl, k)
+			}
+			if len(tl) == 0 {
+				continue
+			}
+			sort.Strings(tl)
+			if r := checkKeys(when, []string{tl[op.N%len(tl)]}); r != nil {
+				return *r
+			}
+		case "getall":
+			var tl []string
+			for k := range touched {
+				tl = append(tl, k)
+			}
+			sort.Strings(tl)
+			if r := checkKeys(when, tl); r != nil {
 				return *r
 			}
 		case "reopen":
@@ -381,7 +425,7 @@ func runCase(c Case) kit.Result {
 			}
 			// a brand new node cache over the same disk: nothing may live only in memory
 			s.tdb = trie.NewDatabase(s.disk)
-			refd = map[common.Hash]bool{}
+			refd = map[common.Hash]int{}
 			if err := s.open(root); err != nil {
 				return kit.Fail("reopen-error", "%s: reopening committed root %x failed: %v", when, root, err)
 			}
@@ -411,15 +455,16 @@ func runCase(c Case) kit.Result {
 			if err != nil {
 				return kit.Fail("commit-error", "%s: %v", when, err)
 			}
-			if !refd[root] {
+			if refd[root] == 0 || op.N%3 == 0 {
 				s.tdb.Reference(root, common.Hash{})
-				refd[root] = true
+				refd[root]++
 			}
 		case "deref":
 			// garbage-collect a referenced root other than the current one
 			var cand []string
-			for r := range refd {
-				if !(haveRoot && r == curRoot) {
+			for r, n := range refd {
+				// the current root must keep one reference; any surplus may go
+				if n > 1 || (n == 1 && !(haveRoot && r == curRoot)) {
 					cand = append(cand, string(r[:]))
 				}
 			}
@@ -427,7 +472,9 @@ func runCase(c Case) kit.Result {
 				sort.Strings(cand)
 				r := common.BytesToHash([]byte(cand[op.N%len(cand)]))
 				s.tdb.Dereference(r)
-				delete(refd, r)
+				if refd[r]--; refd[r] == 0 {
+					delete(refd, r)
+				}
 				if haveRoot {
 					gcAfterShare = true
 					labels["gc-other-root"] = true
@@ -498,9 +545,6 @@ func runCase(c Case) kit.Result {
 				labels["absence-proof"] = true
 			}
 		}
-		if r := checkAll(when); r != nil {
-			return *r
-		}
 	}
 	// final: full comparison, root, history independence
 	if r := checkRoot("final"); r != nil {
@@ -508,6 +552,16 @@ func runCase(c Case) kit.Result {
 	}
 	if r := iterate("final", nil); r != nil {
 		return *r
+	}
+	{
+		var tl []string
+		for k := range touched {
+			tl = append(tl, k)
+		}
+		sort.Strings(tl)
+		if r := checkKeys("final", tl); r != nil {
+			return *r
+		}
 	}
 	// a fresh trie built from the model in descending order has the same root
 	fresh, _ := trie.New(common.Hash{}, trie.NewDatabase(youdb.NewMemDatabase()))
